@@ -564,6 +564,11 @@ func runBrokerScenario(o *out, tag, replay string, gen func(r *rng) (plain, hook
 			impl, pred := runGonePeerDial(dir)
 			o.emit(fmt.Sprintf("!C09.gone-peer dir=%d opts=block", dir), impl, pred)
 		}
+		// the peer is gone (its broker stream has ended): broker calls made afterwards return
+		{
+			impl, pred := runAfterPeerGone()
+			o.emit("!C09.after-peer-gone accepts=12", impl, pred)
+		}
 		// close_ends_goroutines: all pairs are closed; a few seconds later no broker goroutine remains
 		time.Sleep(6500 * time.Millisecond)
 		n := muxGoroutines()
